@@ -207,10 +207,11 @@ pub fn apply_fault(ctx: &Ctx, img: &mut Vec<u8>, older: Option<&[u8]>, hot: &[(u
         }
         "replicated-block" => {
             // duplicated delivery gone wild (a retry storm): one block delivered many times
-            let b = [16usize, 64, 512][ctx.draw(F, 3, "replica-block-size") as usize];
-            let p = position(ctx, len, hot) / b * b;
+            let b = [8usize, 16, 64, 512][ctx.draw(F, 4, "replica-block-size") as usize];
+            // not block-aligned: a retried request starts where the request started
+            let p = position(ctx, len, hot).min(len.saturating_sub(b.min(len)));
             let blk: Vec<u8> = img[p..(p + b).min(len)].to_vec();
-            let mut times = [2usize, 2, 8, 8, 64, 64, 512, 512, 4096, 4096, 16384, 65536][ctx.draw(F, 12, "replicas") as usize];
+            let mut times = [2usize, 2, 8, 64, 64, 512, 4096, 4096, 16384, 65536, 65536, 131072][ctx.draw(F, 12, "replicas") as usize];
             while times * blk.len() > (1 << 20) {
                 times /= 2;
             }
